@@ -157,7 +157,9 @@ class Scipy(AbstractIntegrator):
         t = self.t0 + step_size
         y1 = copy.deepcopy(self.y0)
         for _ in range(max_steps):
-            y2 = integ.integrate(t)
+            # Copy: scipy hands out its internal state array, which the next
+            # call to integrate overwrites in place
+            y2 = np.array(integ.integrate(t), dtype=float)
             diff = (y2 - y1) / y1 if rel_norm else y2 - y1
             if np.linalg.norm(diff, ord=2) < tolerance:
                 self.t0 = t
